@@ -10,7 +10,7 @@
    A history is any list of: HFail elapsed u (an attempt ended - transport failure or dropped
    stream - and next() is consulted [elapsed] after the start of the series, RNG draw u in [0,1)),
    HSuccess (a response was validated: reset(0)), HRetry ms (the server sent "retry: ms"). *)
-From GoSse Require Import Base Whatwg Backoff BackoffProofs Connect ConnectClass ConnectSchedule.
+From GoSse Require Import Base Whatwg Backoff BackoffProofs Connect ConnectClass ConnectSchedule ConnectAgain.
 From GoSse.Gen Require Import Params.
 Local Open Scope Z_scope.
 
@@ -171,6 +171,24 @@ Theorem C12_connect_schedule :
    else on_retries tr = []) /\
   refusal_is_final answers.
 Proof. exact run_schedule. Qed.
+
+(* The same for a Connect call on a Connection that was connected before, in ANY state [s] (every later
+   call of a run of several calls is one: C10_again_call in props/C10.v): Connect makes its controller anew
+   (client_connection.go:198), so the schedule of the call is that of its own attempts - it starts at
+   InitialInterval with no retry counted; a retry value the server sent during an earlier call is forgotten
+   (the code as it is; the property text speaks of the waits after "the preceding connection" and is read
+   per Connect call here - see the level note). *)
+Theorem C12_again_schedule :
+  forall cfg b s script tr r,
+  connect_loop cfg b (call_state b s) script = (tr, r) ->
+  let n := length (requests tr) in
+  let answers := snd (bc_run b (script_hops (cs_last_id s) (firstn n script))) in
+  (if cc_on_retry cfg
+   then map snd (on_retries tr) = granted answers /\
+        map fst (on_retries tr) = firstn (length (on_retries tr)) (retry_errors (firstn n script))
+   else on_retries tr = []) /\
+  refusal_is_final answers.
+Proof. exact again_schedule. Qed.
 
 (* the history of an accepted response starts with the reset *)
 Theorem C12_validated_response_resets :
